@@ -1,5 +1,7 @@
 package main
 
+import "os"
+
 var famOf = map[string]string{
 	"C14": "ring",
 	"C01": "inbox+engine", "C02": "inbox+engine", "C03": "inbox+engine",
@@ -33,4 +35,11 @@ func stubComponents(prop string) []string {
 		base = append(base, "grandcat/zeroconf (mDNS) -> in-simulator discovery registry", "cluster/consul_provider.go: left out of the build (needs an external Consul server)")
 	}
 	return base
+}
+
+func envOr(name, def string) string {
+	if v := os.Getenv(name); v != "" {
+		return v
+	}
+	return def
 }
